@@ -329,6 +329,13 @@ func Execute(sc Scenario) (log []gate.Event, key, detail string) {
 			}
 			closeStarted = closeStarted || op == "close"
 			startCall(op)
+		} else if pubsLeft == sc.Publishes && psCancel != nil && s.Rng.Intn(3) == 0 {
+			// the application shuts its pubsub down (the topic is its own): nothing is delivered any more, and the receiver's
+			// Close must get its watcher to exit all the same
+			pubsLeft = 0
+			s.Record(gate.Event{Ev: "env.psstop"})
+			psCancel()
+			time.Sleep(2 * time.Millisecond)
 		} else {
 			pubsLeft--
 			allowed := s.Rng.Intn(3) != 0
